@@ -66,6 +66,8 @@ func gen(family string, seed uint64, n, max int, opt string, emit func(interface
 		genMuxFault(seed, n, max, emit)
 	case "demux":
 		genStreams(seed, n, max, emit)
+	case "pair":
+		genPairs(seed, n, max, emit)
 	default:
 		fatal("gen: unknown family %q", family)
 	}
@@ -82,7 +84,7 @@ func run(family string, line []byte, rec *recorder, opt string) {
 			sc.Demux = true
 		}
 		runMux(&sc, rec)
-	case "demux":
+	case "demux", "pair", "merge", "skip", "rewind", "rfault", "reader", "robust":
 		var sc streamScenario
 		if err := json.Unmarshal(line, &sc); err != nil {
 			fatal("bad stream scenario: %v: %s", err, line)
@@ -97,5 +99,7 @@ func runStreamFamily(family string, sc *streamScenario, rec *recorder, opt strin
 	switch family {
 	case "demux":
 		runDemux(sc, rec)
+	case "pair":
+		runPair(sc, rec)
 	}
 }
